@@ -19,7 +19,7 @@ EXPLANATION = ("(R1) every Manager state but the stopping/stopped ones declares 
                "and listen() wait on; versions seen before dilate() are forwarded to the late manager. (R5) resource registration: "
                "every protocol built for a Connector (outbound and inbound) is tracked in the collection that stop/selection "
                "disconnect, and leaves it only when selected, disconnected or on break_cycles. Eventual transport loss is trusted.")
-TRUSTED_BASE = ["T1", "T2", "T4"]
+TRUSTED_BASE = ["T1", "T2", "T3", "T4"]
 MIN_OBLIGATIONS = 25
 
 MGR = "src/wormhole/_dilation/manager.py"
@@ -149,16 +149,40 @@ def r4(tree, rep):
         ok = isinstance(first, ast.Expr) and isinstance(first.value, (ast.Yield, ast.Await)) and isinstance(v, ast.Call) \
             and dotted(v.func) == "self._manager._main_channel.when_fired"
         rep.check("C17.R4", "%s.%s first waits on the main channel (so a dilation failure fails it)" % (cls, meth), ok, site(f2, SUB), key="C17.R4:%s.%s" % (cls, meth))
+    # forwarding of the peer's versions: directly, or through a Dilator helper that hands its parameter to the manager
+    def forwarders():
+        out = {}
+        for m in tree.cls(MGR, "Dilator").body:
+            if isinstance(m, ast.FunctionDef):
+                gm = build(m)
+                fw_ = gm.call_nodes(lambda c: dotted(c.func) == "self._manager.got_wormhole_versions" and c.args and isinstance(c.args[0], ast.Name)
+                                    and c.args[0].id in params(m))
+                if fw_ and gm.must_pass(fw_):
+                    out[m.name] = params(m).index([c for c in ast.walk(gm.stmt[fw_[0]]) if isinstance(c, ast.Call) and dotted(c.func) == "self._manager.got_wormhole_versions"][0].args[0].id)
+        return out
+    fwd_methods = forwarders()
+
+    def is_forward(c, argpred):
+        d = dotted(c.func) or ""
+        if d.endswith(".got_wormhole_versions") and c.args and argpred(c.args[0]):
+            return True
+        if d.startswith("self.") and d.split(".")[1] in fwd_methods and d.count(".") == 1:
+            i = fwd_methods[d.split(".")[1]]
+            return len(c.args) > i and argpred(c.args[i])
+        return False
     dd = tree.func(MGR, "Dilator", "dilate")
     g = build(dd)
     pv = [t for t in g.nodes(lambda s: isinstance(s, ast.If)) if is_self_attr(g.stmt[t].test, "_pending_wormhole_versions")]
-    fw = g.call_nodes(lambda c: (dotted(c.func) or "").endswith(".got_wormhole_versions") and is_self_attr(c.args[0], "_pending_wormhole_versions"))
+    fw = g.call_nodes(lambda c: is_forward(c, lambda a: is_self_attr(a, "_pending_wormhole_versions")))
     ok = len(pv) == 1 and len(fw) == 1 and g.must_pass(fw, start=g.branch_targets(pv[0], 'T'), to=[g.exit], explicit_only=True)
     rep.check("C17.R4", "Dilator.dilate forwards versions that arrived earlier to the newly created manager", ok, site(dd, MGR), key="C17.R4:pending-versions")
     gw = tree.func(MGR, "Dilator", "got_wormhole_versions")
     g = build(gw)
-    st = g.nodes(lambda s: isinstance(s, ast.Assign) and any(is_self_attr(t, "_pending_wormhole_versions") for t in s.targets))
-    fwd = g.call_nodes(lambda c: dotted(c.func) == "self._manager.got_wormhole_versions")
+    p0 = params(gw)[0]
+    st = g.nodes(lambda s: isinstance(s, ast.Assign) and any(is_self_attr(t, "_pending_wormhole_versions") for t in s.targets)
+                 and isinstance(s.value, ast.Name) and s.value.id == p0)
+    fwd = g.call_nodes(lambda c: gw.name not in fwd_methods and is_forward(c, lambda a: isinstance(a, ast.Name) and a.id == p0)
+                       or (dotted(c.func) == "self._manager.got_wormhole_versions" and c.args and isinstance(c.args[0], ast.Name) and c.args[0].id == p0))
     rep.check("C17.R4", "Dilator.got_wormhole_versions forwards to the manager or remembers the versions", len(st) == 1 and len(fwd) == 1 and g.must_pass(st + fwd),
               site(gw, MGR), key="C17.R4:Dilator.got_wormhole_versions")
 
@@ -299,6 +323,31 @@ def r6(tree, rep):
                           v.get("site"), v.get("detail"), _count=False)
 
 
+def r7(tree, rep, tier):
+    """typestate analysis with Dilator and the dilation Manager in the product: close() still reaches `closed` from every
+    state (the Terminator gets stoppedD whatever the Manager is doing), and the Manager never gets an input it has no row for"""
+    from .. import a3common
+    sums = a3common.explorations(tree, tier, rep.seed, rep)
+    a3common.fill_extra(rep, sums)
+    for envname, s in sums.items():
+        if not s.env.get("dilation_manager_in_product"):
+            continue
+        mrows = [r for r in s.fired_rows if r[0] == "Manager"]
+        rep.check("C17.R7", "with the dilation Manager in the product every state after close() can still reach closed "
+                  "(environment %s: %d states, %d after close(), %d Manager rows exercised)" % (envname, s.nstates, s.closing_states, len(mrows)),
+                  s.n_stuck == 0, key="C17.R7:EF-closed:%s" % envname, evals=max(1, s.closing_states))
+        for (p_, ms) in s.stuck[:3]:
+            rep.violation("C17.R7", "C17.R7:stuck:%s" % ",".join("%s=%s" % kv for kv in sorted(ms.items()) if kv[0] in ("Manager", "Terminator", "Boss")),
+                          "with dilation active the wormhole can get stuck after close() (no path to closed): %s" % {k: v for k, v in ms.items() if k in ("Manager", "Terminator", "Boss")},
+                          None, trace=p_)
+        for v in s.viol:
+            if v["kind"] in ("NoTransition", "no-instance") and (v["detail"].startswith("Manager") or v["detail"].startswith("Terminator")):
+                rep.violation("C17.R7", "C17.R7:%s:%s" % (v["kind"], v["detail"]), "%s is reachable with dilation active (close()/shutdown would fail)" % v["detail"],
+                              v["site"], detail=" > ".join(v["stack"]), trace=v["path"])
+        if envname == "dilation" and len(mrows) < 8:
+            raise AnalysisError("the dilation environment exercised only %d Manager rows" % len(mrows))
+
+
 def run(tree, rep, tier):
     prog = Program(tree)
     r1_r2(prog, rep)
@@ -306,6 +355,7 @@ def run(tree, rep, tier):
     r4(tree, rep)
     r5(tree, rep)
     r6(tree, rep)
+    r7(tree, rep, tier)
 
 
 MUTANTS = [
@@ -321,4 +371,5 @@ MUTANTS = [
     Mutant("discard-in-consider", CTR, "        self._contenders.add(c)\n", "        self._contenders.add(c)\n        self._pending_connections.discard(c)\n", "C17.R5"),
     Mutant("stop-skips-connections", CTR, "    def stop_everything(self):\n        self.stop_listeners()\n        self.stop_pending_connectors()\n        self.stop_pending_connections()\n", "    def stop_everything(self):\n        self.stop_listeners()\n        self.stop_pending_connectors()\n", "C17.R2"),
 ]
+MUTANTS.append(Mutant("connected-stop-never-notifies", MGR, "    STOPPING.upon(connection_lost_follower, enter=STOPPED, outputs=[notify_stopped, send_status_stopped])\n", "", ("C17.R1", "C17.R7")))
 REWRITES = []
